@@ -23,6 +23,7 @@
 
 #include <arpa/inet.h>
 #include <stdbool.h>
+#include <errno.h>
 #include <stdio.h>
 #include <stdlib.h>
 #include <string.h>
@@ -151,6 +152,7 @@ static struct {
 	const char *s;
 	struct lrtr_ip_addr *a;
 	int ret;
+	int err;
 } job;
 static const void *main_bottom;
 static size_t main_size;
@@ -174,6 +176,8 @@ static int call_parse(enum which w, const char *s, struct lrtr_ip_addr *a)
 static void fiber_main(void)
 {
 	FIBER_FINISH(NULL, &main_bottom, &main_size);
+	/* the conversion depends on the text only: not on what an earlier library call left in errno either */
+	errno = job.err;
 	job.ret = call_parse(job.w, job.s, job.a);
 	FIBER_START(NULL, main_bottom, main_size);
 }
@@ -193,6 +197,7 @@ static int run_on_pattern(int pat, enum which w, const char *s, struct lrtr_ip_a
 	job.w = w;
 	job.s = s;
 	job.a = a;
+	job.err = pat == PAT1 ? 0 : ERANGE;
 	FIBER_START(&fake, pstack, PSTACK);
 	swapcontext(&main_ctx, &fiber_ctx);
 	FIBER_FINISH(fake, NULL, NULL);
